@@ -55,6 +55,16 @@ func RunC20(t *Trace, st *Stats) *Violation {
 		dw = deferred.NewDeferredCarWriterForPath(env.Path, roots, opts...)
 	}
 	callerOpts = append(callerOpts, carv2.UseIndexPadding(7777), carv2.WriteAsCarV1(!cfg.CarV1)) // unrelated later use of the same slice
+	if t.Extra != nil && t.Extra["reuse_args"] == true {
+		// the caller goes on to use its roots and options slices for something else: the writer was given
+		// their values, not the right to read them later
+		for i := range roots {
+			roots[i] = MakeBlock(BlkSpec{"raw", 9000 + uint64(i), 3}).Cid
+		}
+		for i := range opts {
+			callerOpts[i] = carv2.UseDataPadding(1234)
+		}
+	}
 	_ = callerOpts
 	// direct twin, constructed at the first put
 	var direct storage.WritableCar
@@ -160,9 +170,9 @@ func RunC20(t *Trace, st *Stats) *Violation {
 				started = true
 				var derr error
 				if stream {
-					direct, derr = storage.NewWritable(dsink, roots, directOpts...)
+					direct, derr = storage.NewWritable(dsink, cfg.RootCids(), directOpts...)
 				} else {
-					direct, derr = storage.NewWritable(sim.NewFile(ddisk), roots, directOpts...)
+					direct, derr = storage.NewWritable(sim.NewFile(ddisk), cfg.RootCids(), directOpts...)
 				}
 				if derr != nil {
 					panic(&InfraError{"direct writer: " + derr.Error()})
@@ -247,6 +257,12 @@ func GenC20(seed uint64, run int) *Trace {
 		default:
 			t.Ops = append(t.Ops, Op{Kind: "close"})
 		}
+	}
+	if r.Chance(1, 3) {
+		if t.Extra == nil {
+			t.Extra = map[string]any{}
+		}
+		t.Extra["reuse_args"] = true // the caller reuses its roots and options slices after the constructor returned
 	}
 	if r.Chance(3, 4) {
 		t.Ops = append(t.Ops, Op{Kind: "close"})
